@@ -218,10 +218,10 @@ def observe_child(c):
 def build_items(cases, run=None, want=("tables", "dstate", "dxdtf", "euler")):
     """observations are made in child processes: an engine that crashes or hangs is an observation ("raise:crash"), not the end of the check"""
     engine_build.build(False)
-    obs = child.map_children("c01", "observe_child", [dict(c, want=list(want)) for c in cases], timeout=60)
+    obs = child.map_children("c01", "observe_child", [dict(c, want=list(want)) for c in cases], timeout=60, confirm=True)
     bad = [k for k, o in enumerate(obs) if "timeout" in o or "crash" in o or "error" in o]
     if bad:
-        rest = child.map_children("c01", "observe_child", [dict(cases[k], want=[w for w in want if w != "euler"]) for k in bad], timeout=60)
+        rest = child.map_children("c01", "observe_child", [dict(cases[k], want=[w for w in want if w != "euler"]) for k in bad], timeout=60, confirm=True)
         for k, o2 in zip(bad, rest):
             if "timeout" in o2 or "crash" in o2 or "error" in o2:
                 raise RuntimeError("observation without the native engine failed: %r" % (o2,))
